@@ -183,7 +183,9 @@ def run_tlc(ctx, module, constants, invariants, tag, emit_to=None, workers=4, ti
         cmd += ["-simulate", simulate]
     cmd.append(os.path.join(spec_dir, module + ".tla"))
     env = dict(os.environ)
-    env["JAVA_TOOL_OPTIONS"] = "-Xss512m -Xmx%s" % xmx
+    jtmp = os.path.join(rdir, "jtmp")      # TLC leaves an (empty) tlc-<n> directory in java.io.tmpdir on every run: keep it out of /tmp
+    os.makedirs(jtmp, exist_ok=True)
+    env["JAVA_TOOL_OPTIONS"] = "-Xss512m -Xmx%s -Djava.io.tmpdir=%s" % (xmx, jtmp)
     if env_extra:
         env.update(env_extra)
     t0 = time.time()
